@@ -109,7 +109,6 @@ Section S.
 Variable sigma : oracle.
 Variable i : inst.
 Hypothesis Hnn : inst_nonneg_b i = true.
-Hypothesis Hflex : flex_post_b i = true.
 Variable tool0 : nat -> nat.
 Variable t0 : Z.
 
@@ -502,7 +501,7 @@ Definition J6 (x : state) : Prop := J3 i x /\ (t0 <= s_now x)%Z /\ exists g, SEQ
 Lemma due_w_step x tr0 R x' tr1 :
   WFS i x -> WFS i x' -> Q (tr0 :: R) x -> apply_transition sigma i x tr0 = Ok x' -> In tr1 R -> due_w x tr1 -> due_w x' tr1.
 Proof.
-  intros W W' [ND HP] H Hin Hd m Hc1 Hk. destruct (Hd m Hc1 Hk) as [st [z [l [Hr Hz]]]].
+  intros W W' [ND [HP _]] H Hin Hd m Hc1 Hk. destruct (Hd m Hc1 Hk) as [st [z [l [Hr Hz]]]].
   assert (Hcore1 : In tr1 (core R)) by (apply in_core; auto; unfold is_tworking; rewrite Hk; reflexivity).
   assert (Hn0 : tr_comp tr0 <> CM m).
   { intros Hc0. destruct (is_tworking tr0) eqn:Ew.
@@ -527,7 +526,7 @@ Theorem J6_apply x tr R x' :
   J6 x' /\ Q6 R x' /\ side2 tr x' = true.
 Proof.
   intros N [Hj3 [Ht0 [g Sq]]] [HQ3 Hdue] Hv Ha.
-  destruct (J3_apply sigma i Hnn Hflex _ _ _ _ N Hj3 HQ3 Hv Ha) as [Hj3' [HQ3' Sd]].
+  destruct (J3_apply sigma i Hnn _ _ _ _ N Hj3 HQ3 Hv Ha) as [Hj3' [HQ3' Sd]].
   destruct Hj3 as [Hj [B D]]. destruct HQ3 as [HQ Hdf].
   destruct (apply_preserves_SEQ _ _ _ _ N Hj Sq Ht0 (Hdue tr (or_introl eq_refl)) (Hdf tr (or_introl eq_refl)) Hv Ha) as [g' Sq'].
   split; [split; [auto|split; [rewrite (apply_now sigma i _ _ _ Ha); auto|eauto]]|]. split; [|exact Sd]. split; [exact HQ3'|].
@@ -545,7 +544,7 @@ Proof. intros [[m [j ->]]|[t [j ->]]] m0 Hc Hk; simpl in *; discriminate. Qed.
 
 Lemma due_w_timed x timed : J i x -> create_timed_transitions i x = Ok timed -> forall tr, In tr timed -> due_w x tr.
 Proof.
-  intros [W [_ Dn]] H tr Hin. unfold create_timed_transitions in H.
+  intros HJ H tr Hin. pose proof HJ as [W [_ Dn]]. unfold create_timed_transitions in H.
   destruct (create_timed_machine_transitions i x) as [a|] eqn:Ea; simpl in H; [|discriminate].
   destruct (create_timed_transport_transitions i x) as [b|] eqn:Eb; simpl in H; [|discriminate].
   inversion H; subst; clear H. apply in_app_iff in Hin. destruct Hin as [Hin|Hin].
@@ -554,27 +553,29 @@ Proof.
     + rewrite Hc in Hc'. inversion Hc'; subst k. exists (m_st ms), z, (b_store (m_in ms)).
       split; [rewrite (mrec_of _ _ _ Hms), Ho; reflexivity|auto].
     + simpl in Hk. discriminate.
-  - destruct (timed_transports_comps i x _ _ _ (fun ts Hi => NODEP_in _ _ Dn Hi) Eb) as [B1 _].
-    destruct (B1 _ Hin) as [k [_ [_ [_ [_ [_ [_ [Hc' _]]]]]]]]. intros m Hc. rewrite Hc in Hc'. discriminate.
+  - destruct (timed_transport_comp i x _ _ HJ Eb Hin) as [k Hc']. intros m Hc. rewrite Hc in Hc'. discriminate.
 Qed.
 
-Lemma Q6_timed x timed poss tele : NO x -> J6 x -> create_timed_transitions i x = Ok timed ->
+Lemma Q6_timed x timed poss tele : NO x -> J6 x -> BI x -> create_timed_transitions i x = Ok timed ->
   get_possible_transitions i x = Ok poss -> filter_teleport i x poss = Ok tele -> Q6 (timed ++ tele) x.
 Proof.
-  intros N [Hj3 _] H Hp Hf. split; [eapply Q3_timed; eauto|]. destruct Hj3 as [Hj _].
+  intros N [Hj3 _] Hb H Hp Hf. split; [eapply Q3_timed; eauto|]. destruct Hj3 as [Hj _].
   intros tr Hin. apply in_app_iff in Hin. destruct Hin as [Hin|Hin]; [eapply due_w_timed; eauto|].
   apply (OK3_due_w x). pose proof (tele_sub i _ _ _ Hf _ Hin) as Hin'.
   destruct (offers_shape i _ _ _ Hp Hin'); [left|right]; auto.
 Qed.
 
-Lemma Q6_timed0 x timed : NO x -> J6 x -> create_timed_transitions i x = Ok timed -> Q6 timed x.
+Lemma Q6_timed0 x timed : NO x -> J6 x -> BI x -> create_timed_transitions i x = Ok timed -> Q6 timed x.
 Proof.
-  intros N [Hj3 _] H. split; [eapply Q3_timed0; eauto|]. destruct Hj3 as [Hj _]. eapply due_w_timed; eauto.
+  intros N [Hj3 _] Hb H. split; [eapply Q3_timed0; eauto|]. destruct Hj3 as [Hj _]. eapply due_w_timed; eauto.
 Qed.
 
-Lemma Q6_offer x o : J6 x -> OK3 x o -> Q6 [o] x.
+Lemma E6_end x : J6 x -> Q6 [] x -> BI x.
+Proof. intros [Hj3 _] [HQ _]. apply (E3_end i x); auto. Qed.
+
+Lemma Q6_offer x o : J6 x -> BI x -> create_timed_transitions i x = Ok [] -> OK3 x o -> Q6 [o] x.
 Proof.
-  intros [Hj3 _] Ho. split; [apply (Q3_offer i); auto|]. intros tr [<-|[]]. apply OK3_due_w; auto.
+  intros [Hj3 _] Hb Hct Ho. split; [apply (Q3_offer i); auto|]. intros tr [<-|[]]. apply OK3_due_w; auto.
 Qed.
 
 (* ---------- a fresh state: nothing started, every machine has its initial tool ---------- *)
@@ -596,7 +597,7 @@ Proof.
 Qed.
 
 (* ---------- every run ---------- *)
-Theorem flex_setup_sequence fuel x0 joker0 ta r m :
+Theorem run_setup_sequence fuel x0 joker0 ta r m :
   clock_b x0 = true -> wfs_b i x0 = true -> fresh2_b i x0 = true -> nodep_b x0 = true ->
   (forall m ms, nth_error (s_machs x0) m = Some ms -> m_tool ms = tool0 m) -> t0 = s_now x0 ->
   reach sigma i fuel x0 joker0 ta r m -> exists g, SEQ (r_x r) g.
@@ -605,11 +606,11 @@ Proof.
   assert (Fr1 : fresh_b i x0 = true) by (unfold fresh2_b in Fr; apply andb_true_iff in Fr; destruct Fr as [Fr _]; apply andb_true_iff in Fr; tauto).
   assert (J0 : J6 x0).
   { split; [split; [apply J_init; auto|apply (fresh_BO_DUR i); auto]|]. split; [lia|]. exists (fun _ => []). apply fresh_SEQ; auto. }
-  destruct (reach_reachG sigma i Hnn J6 Q6 side2 OK3 J6_apply J6_now Q6_timed Q6_timed0 Q6_offer (offers_ok3 i) _ _ _ _ _ _ C J0 H)
+  destruct (reach_reachG sigma i Hnn J6 Q6 side2 OK3 BI J6_apply J6_now E6_end BI_now Q6_timed Q6_timed0 Q6_offer (offers_ok3 i) _ _ _ _ _ _ C J0 (BI_init _ Dn) H)
     as [_ [_ [xq [Nq [[_ [_ [g Sq]]] [E|[_ [z E]]]]]]]]; rewrite E; exists g; auto. apply SEQ_set_now; auto.
 Qed.
 
-Theorem flex_micro_setup_sequence fuel x0 joker0 ta r m a r' m' lg :
+Theorem run_micro_setup_sequence fuel x0 joker0 ta r m a r' m' lg :
   clock_b x0 = true -> wfs_b i x0 = true -> fresh2_b i x0 = true -> nodep_b x0 = true ->
   (forall m ms, nth_error (s_machs x0) m = Some ms -> m_tool ms = tool0 m) -> t0 = s_now x0 ->
   reach sigma i fuel x0 joker0 ta r m -> mw_step sigma i fuel r m a = MOk r' m' lg ->
@@ -619,7 +620,7 @@ Proof.
   assert (Fr1 : fresh_b i x0 = true) by (unfold fresh2_b in Fr; apply andb_true_iff in Fr; destruct Fr as [Fr _]; apply andb_true_iff in Fr; tauto).
   assert (J0 : J6 x0).
   { split; [split; [apply J_init; auto|apply (fresh_BO_DUR i); auto]|]. split; [lia|]. exists (fun _ => []). apply fresh_SEQ; auto. }
-  destruct (reach_micro_J sigma i Hnn J6 Q6 side2 OK3 J6_apply J6_now Q6_timed Q6_timed0 Q6_offer (offers_ok3 i) _ _ _ _ _ _ _ _ _ _ C J0 H Hm _ _ Hin)
+  destruct (reach_micro_J sigma i Hnn J6 Q6 side2 OK3 BI J6_apply J6_now E6_end BI_now Q6_timed Q6_timed0 Q6_offer (offers_ok3 i) _ _ _ _ _ _ _ _ _ _ C J0 (BI_init _ Dn) H Hm _ _ Hin)
     as [[_ [_ Sy]] _]. exact Sy.
 Qed.
 
@@ -749,7 +750,7 @@ Proof.
   - rewrite E1 in Ee. inversion Ee; subst e. exact Le.
 Qed.
 
-Theorem flex_setup_gap fuel x0 joker0 ta r m :
+Theorem run_setup_gap fuel x0 joker0 ta r m :
   clock_b x0 = true -> wfs_b i x0 = true -> fresh2_b i x0 = true -> nodep_b x0 = true ->
   (forall m ms, nth_error (s_machs x0) m = Some ms -> m_tool ms = tool0 m) -> t0 = s_now x0 ->
   reach sigma i fuel x0 joker0 ta r m -> setup_gap_b i (r_x r) = true.
@@ -758,13 +759,13 @@ Proof.
   assert (Fr1 : fresh_b i x0 = true) by (unfold fresh2_b in Fr; apply andb_true_iff in Fr; destruct Fr as [Fr _]; apply andb_true_iff in Fr; tauto).
   assert (J0 : J6 x0).
   { split; [split; [apply J_init; auto|apply (fresh_BO_DUR i); auto]|]. split; [lia|]. exists (fun _ => []). apply fresh_SEQ; auto. }
-  destruct (reach_reachG sigma i Hnn J6 Q6 side2 OK3 J6_apply J6_now Q6_timed Q6_timed0 Q6_offer (offers_ok3 i) _ _ _ _ _ _ C J0 H)
+  destruct (reach_reachG sigma i Hnn J6 Q6 side2 OK3 BI J6_apply J6_now E6_end BI_now Q6_timed Q6_timed0 Q6_offer (offers_ok3 i) _ _ _ _ _ _ C J0 (BI_init _ Dn) H)
     as [_ [_ [xq [Nq [[[[_ [[Fq _] _]] _] [_ [g Sq]]] [E|[_ [z E]]]]]]]]; rewrite E.
   - eapply SEQ_setup_gap_b; eauto.
   - exact (SEQ_setup_gap_b _ _ Fq Sq).
 Qed.
 
-Theorem flex_micro_setup_gap fuel x0 joker0 ta r m a r' m' lg :
+Theorem run_micro_setup_gap fuel x0 joker0 ta r m a r' m' lg :
   clock_b x0 = true -> wfs_b i x0 = true -> fresh2_b i x0 = true -> nodep_b x0 = true ->
   (forall m ms, nth_error (s_machs x0) m = Some ms -> m_tool ms = tool0 m) -> t0 = s_now x0 ->
   reach sigma i fuel x0 joker0 ta r m -> mw_step sigma i fuel r m a = MOk r' m' lg ->
@@ -774,7 +775,7 @@ Proof.
   assert (Fr1 : fresh_b i x0 = true) by (unfold fresh2_b in Fr; apply andb_true_iff in Fr; destruct Fr as [Fr _]; apply andb_true_iff in Fr; tauto).
   assert (J0 : J6 x0).
   { split; [split; [apply J_init; auto|apply (fresh_BO_DUR i); auto]|]. split; [lia|]. exists (fun _ => []). apply fresh_SEQ; auto. }
-  destruct (reach_micro_J sigma i Hnn J6 Q6 side2 OK3 J6_apply J6_now Q6_timed Q6_timed0 Q6_offer (offers_ok3 i) _ _ _ _ _ _ _ _ _ _ C J0 H Hm _ _ Hin)
+  destruct (reach_micro_J sigma i Hnn J6 Q6 side2 OK3 BI J6_apply J6_now E6_end BI_now Q6_timed Q6_timed0 Q6_offer (offers_ok3 i) _ _ _ _ _ _ _ _ _ _ C J0 (BI_init _ Dn) H Hm _ _ Hin)
     as [[[[_ [[Fy _] _]] _] [_ [g Sy]]] _]. eapply SEQ_setup_gap_b; eauto.
 Qed.
 End S.
